@@ -10,7 +10,8 @@ import SctpVerif.Proofs.Sender.Books
 import SctpVerif.Proofs.Sender.Acct
 import SctpVerif.Proofs.Sender.Core
 import SctpVerif.Proofs.Sender.Callback
+import SctpVerif.Proofs.Sender.Seq
 /-! Helper lemmas about the L0 sender model `Model/Sender.lean` (used by `Props/C10.lean`, `Props/C15.lean`):
 `Arith` packet/chunk sizes · `Gather` the scan loops · `Window`/`Admit` admission of new DATA · `Frames` what the
 flag-only transitions leave alone · `WinRun` window invariants over runs · `Loss` loss response · `Books`/`Acct`/`Core`
-byte accounting · `Callback` low-threshold callback. -/
+byte accounting · `Callback` low-threshold callback · `Seq` TSN contiguity, a validated SACK is applied completely. -/
